@@ -51,6 +51,14 @@ CHECKS = {
         "independent EN 302 931 implementation, verdicts being issued only where two different projections agree outside a 3 % + 2 m band.",
         "Sampled; no verdict in the border band, beyond 85 degrees latitude or across the antimeridian; Annex D 'sender' = source.",
     ),
+    "C01": (
+        "model-based history testing: hypothesis request/reception/clock/mute histories on 2..4 real stations joined by a simulated ether",
+        "Real BTP and GeoNetworking routers of 2..4 stations exchange frames through an in-process ether; every BTPDataIndication at every "
+        "port of every station is compared (content, order per sender, source position vector, transport type, port information) with a "
+        "delivery model covering SHB, GBC/GAC (in-area by an independent geometry oracle), GUC direct and through the location service "
+        "including requests queued behind a pending lookup and unrelated receptions in between, anywhere on the globe.",
+        "Sampled histories (<= 16 steps, <= 4 stations, full mesh); security off (secured delivery is C03/C05); SCF cleared; no verdict in the geometry band.",
+    ),
 }
 
 NOT_APPLICABLE = {
